@@ -66,9 +66,9 @@ LEVEL_TEXT = ("Props/C11.lean (float syntax model, every feature set): complete_
               "of I i N n (exhaustive model search to length 5-6 over all uniform decimal/hex separator formats, also with a "
               "base prefix, found no violation besides the radix one).")
 LEVEL_NOTE = ("Trusted: Lean kernel; rustc; that the models mirror the Rust control flow (correspondence only). The integer parser with the "
-              "`format` feature (prefix/suffix/separators/leading-zero flags) is modelled by Model.ParseIntFormat; Props/C04Format.lean proves "
-              "clause 1 for formats without separator/prefix/suffix/leading-zero flag and decides the witnesses I3 (suffix '1+1'), I4 (prefix '0xg') on the model; "
-              "I2 (no_integer_leading_zeros '0' -> (0,0)) was a defect, repaired in /repo (ab62fc7), now the regression theorem regression_I2.")
+              "`format` feature (prefix/suffix/separators/leading-zero flags) is modelled by Model.ParseIntFormat; Props/C04Format.lean "
+              "int_format_complete_iff_partial proves clause 1 for EVERY valid format (lockstep of the two runs, Proof/ParseIntFormatAgree.lean); "
+              "clause 2 is false for base suffix / base prefix (decided witnesses I3 '1+1', I4 '0xg').")
 
 
 def feature_sets(tier):
